@@ -658,8 +658,8 @@ func (d *Data) computeVoxelBounds(tileCoord dvid.ChunkPoint3d, plane dvid.DataSh
 	// Get magnification at the given scale of the tile sizes.
 	mag := dvid.Point3d{1, 1, 1}
 	var tileSize dvid.Point3d
-	for s := Scaling(0); s <= scale; s++ {
-		spec, found := d.Properties.Levels[s]
+	for i := 0; i <= int(scale); i++ { // counted in int: a uint8 never exceeds 255
+		spec, found := d.Properties.Levels[Scaling(i)]
 		if !found {
 			return dvid.Extents3d{}, fmt.Errorf("no tile spec for scale %d", scale)
 		}
@@ -1264,7 +1264,7 @@ func (d *Data) getBlankTileImage(req TileReq) (image.Image, error) {
 // pow2 returns the power of 2 with the passed exponent.
 func pow2(exp uint8) int {
 	pow := 1
-	for i := uint8(1); i <= exp; i++ {
+	for i := 0; i < int(exp); i++ {
 		pow *= 2
 	}
 	return pow
